@@ -54,7 +54,7 @@ finding("C01-append-pruning", "C01", ["C07", "C06", "C05"],
  "Column pruning and sort-column propagation treat the two inputs of `append` differently: `let l0 = (from t1 | select {a, b})  from l0 | append (from t2 | select {a, c}) | select {b, a}` emits `SELECT b, a FROM l0 UNION ALL SELECT a, c FROM t2` (columns of the bottom not swapped: wrong rows); with `select {a}` the bottom keeps two columns (SQL error); `... | sort {a} | append ...` and `group .. | append ..` drop / reorder bottom columns.",
  {"source": "let l0 = (from t1 | select {a, b})\nfrom l0 | append (from t2 | select {a, c}) | select {b, a}", "arity": 2,
   "rows": [[I(10),I(1)],[I(20),I(1)],[N,I(2)],[I(7),I(5)],[I(8),I(6)]]})
-finding("C02-sqlite-divi-small-int", "C02", ["C01"],
+finding("C02-sqlite-divi-small-int", "C02", ["C01", "C03", "C04", "C05", "C09"],
  "dialect sqlite, operator `//`, both operands integers with 0 < |l| < |r| (hazard int_divi)",
  "sqlite's `//` template is `ROUND(ABS(l / r) - 0.5) * SIGN(l) * SIGN(r)`; for integers `l / r` truncates to 0 and ROUND(-0.5) = -1, so `1 // 2` = -1 instead of 0. The template text is pinned by snapshots.",
  {"source": "from t1 | select {c = id // 4}", "arity": 1, "rows": [[I(0)],[I(0)],[I(0)]]})
@@ -275,8 +275,8 @@ finding("C07-join-rewritten-to-intersect", "C07", ["C01", "C05", "C09"],
  None)
 
 finding("C07-distinct-on-computed-sort-key", "C07", ["C09"],
- "a dialect with DISTINCT ON (postgres, duckdb, ...), `group k (sort {<computed key>, ..} | take 1)`: the binder reports `ORDER BY: column _expr_N is not in scope`",
- "`from t | select {a, b, c} | group {a} (sort {(b * 0), c} | take 1)` under postgres: `SELECT DISTINCT ON (a) a, c, b FROM t ORDER BY a, _expr_0, c`: the computed sort key is referred to by its generated alias, which this SELECT never defines.",
+ "a dialect with DISTINCT ON (postgres, duckdb, ...), `group k (sort {..} | take 1)` with a computed sort key or a computed group key (also when the group-take ends a let-table that is read elsewhere): the binder reports `ORDER BY:` / `SELECT: column _expr_N is not in scope`",
+ "`from t | select {a, b, c} | group {a} (sort {(b * 0), c} | take 1)` under postgres: `SELECT DISTINCT ON (a) a, c, b FROM t ORDER BY a, _expr_0, c`: the computed sort key is referred to by its generated alias, which this SELECT never defines. With a computed group key at the end of a let-table (`select {c9 = c7 ** 0 >= 0.25, c6} | group {c9} (sort {-c6} | take 1)`) the reader re-evaluates the key expression over `_expr_0`, which the CTE does not expose.",
  None)
 
 finding("C09-generated-cte-name-equals-user-column", "C09", [],
@@ -311,6 +311,18 @@ finding("C06-let-sort-not-applied-to-windows", "C06", ["C03", "C01", "C04", "C07
 finding("C06-sorted-let-computed-key-recomputed", "C06", [],
  "a pipeline prefix that ends with a sort in effect on a computed column (a derive / select expression or the result of `aggregate`) is named with let / into, and the continuation no longer selects that column (join, group, select)",
  "`.. | group {id} (aggregate {c0 = min 25, c1 = count 5}) | sort {id, c1} | filter .. | select {c2 = 'ab', c0}`: after naming the prefix up to the sort `zlet0`, the reader is compiled as `table_0 AS (SELECT 'ab' AS c2, c0, id, COUNT(*) AS c1 FROM zlet0)`: the sort key is not read from the CTE but re-evaluated in the outer SELECT - an aggregate turns it into an aggregate query (one row of NULLs), a scalar expression (`c3 = id % 1`, `sort {c3}`) is emitted as `id % 1 AS c3 FROM zlet1` where `id` does not exist (no such column). The inline form carries the key as `_expr_0`.",
+ None)
+finding("C07-sort-key-rename-scope", "C07", ["C01", "C03", "C04"],
+ "a select that renames (aliases) a key of the sort in effect, followed by steps that force a sub-query (filter on the alias + another select) (hazard sort_key_rename)",
+ "`from t3 | select {u, f, a} | sort {f} | select {c0 = f} | filter c0 | select {c1 = 0}` compiles to `WITH table_0 AS (SELECT f AS _expr_0, f FROM t3), table_1 AS (SELECT 0 AS c1, f FROM table_0 WHERE _expr_0) SELECT c1 FROM table_1 ORDER BY _expr_0`: the final ORDER BY names the alias column `_expr_0`, which table_1 does not carry (it carries `f`). Same family as the recorded panic C12-panic-column-name-not-set.",
+ None)
+finding("C01-take-then-distinct-merged", "C01", ["C03", "C04", "C06"],
+ "an un-partitioned `take` followed by `group {every column of the frame} (take 1)` (the distinct idiom) (hazard take_distinct)",
+ "`from t2 | select {id, a, b} | sort {a, id} | take 1 | group {id, a, b} (take 1)` compiles to `SELECT DISTINCT id, a, b FROM t2 LIMIT 1`: DISTINCT and LIMIT share one SELECT (DISTINCT is applied before LIMIT) and the ORDER BY of the take is dropped, so other rows are returned.",
+ {"source": "from t1 | select {id, a} | sort {-id} | take 1 | group {id, a} (take 1)", "arity": 2, "rows": [[I(3),I(2)]]})
+finding("C05-exclusion-by-bare-name-after-split", "C05", [],
+ "duckdb / snowflake / bigquery: `select !{t.n}` over a join of two wildcard relations that both have a column n, when later steps force a sub-query: the result lacks the other relation's n as well",
+ "`from t2 | join t1 (t2.id == t1.a) | derive {..} | filter !t2.f | select !{t2.f} | filter ..` under bigquery: `WITH table_0 AS (SELECT t2.* EXCEPT (f), t1.*, .., t2.f FROM ..) SELECT * EXCEPT (f) FROM table_0 WHERE ..`: the outer, unqualified `* EXCEPT (f)` removes both the helper copy of t2.f and t1.f, which is part of the frame.",
  None)
 finding("C07-loop-after-sort-arity", "C07", ["C05"],
  "a `loop` whose input pipeline has a sort in effect: the emitted WITH RECURSIVE has a UNION ALL between different arities",
